@@ -503,6 +503,10 @@ class Gen:
                                   "application/vnd.api+json", "application/json; charset=utf-8"])
                 sch = {"type": "string", "format": "binary"} if "json" not in media else {"type": "object"}
                 op["requestBody"] = {"required": breq, "content": {media: {"schema": sch}}}
+                if "json" not in media and r.random() < 0.3:
+                    # a media type object without a schema: legal, and what OpenAPI 3.1 recommends for binary uploads
+                    op["requestBody"]["content"][media] = {}
+                    self.features.add("request_media_without_schema")
                 body_exp = {"media": media, "required": breq}
                 self.features.add("raw_body_media_" + media.split("/")[1].split(";")[0].replace("+", "_").replace(".", "_").replace("-", "_"))
             if kind == "json" and r.random() < self.prof.get("p_multi_media", 0.0):
